@@ -16,9 +16,9 @@ Driver-side relational clauses (on the returned table only):
   z_orbit           the n sub-units share the parent's z-axis; geom2 -> geom2+1 (and n -> 1) is a turn of 360/n about it, for
                     orientations (G_k^T G_k+1 = Rz(360/n)) and for the arms position - centre (Rodrigues about R.ez)
   on_axis_coincide  s on the axis: all n sub-units of a parent have the same complete position
-  spelling_agree    'Cn', 'cn', n and float(n) give the same sub-units: after ordering by (geom5, geom2) equal parent, index,
+  spelling_agree    'Cn', 'cn', n, float(n), np.int64(n) and np.float64(n) give the same sub-units: after ordering by (geom5, geom2) equal parent, index,
                     inherited fields, complete positions and orientation matrices (numbering and Euler spelling not compared)
-Exhaustive sub-space (extra): every n in 1..32 (quick) / 1..64 (thorough) x the four spellings x {generic, on-axis, zero} offset.
+Exhaustive sub-space (extra): every n in 1..32 (quick) / 1..64 (thorough) x the six spellings x {generic, on-axis, zero} offset.
 """
 import types
 
@@ -31,7 +31,7 @@ from vmon.oracles import so3
 PROP = "C10"
 RULE = ("cases = generated particle lists (1..100 particles; stratified over orientation kinds incl. gimbal lock, position "
         "kinds incl. negative/large/half-integer ties, identifier/index layouts) x symmetry order n (1..64; divisors and "
-        "non-divisors of 360) x spelling ('Cn','cn',int,integral float; spelling of case i = (i // #classes) mod 4) x offset "
+        "non-divisors of 360) x spelling ('Cn','cn',int,integral float,np.int64,np.float64; spelling of case i = (i // #classes) mod 6) x offset "
         "s (generic, in-plane, on-axis, zero, integer lists/tuples); non-trivial = n >= 2 and s has a non-zero in-plane "
         "component (n distinct poses at n distinct places); distinct by digest of (n, spelling, #particles, s, class, first pose); "
         "the exhaustive sweep over n is reported separately under observed.n_values_covered")
@@ -44,8 +44,9 @@ ASSUMPTIONS = [
     "geom2, never by row order (the statement does not fix an output order)",
     "orientation R of a particle = Rz(psi).Rx(theta).Rz(phi) (extrinsic zxz, active, DESIGN.md section 3); 'rotation about the "
     "parent's own z-axis' = right-multiplication by Rz",
-    "'a number' = Python int or integral Python float (numpy.float64 is one), as in the docstring ('int/float'); bool, numpy "
-    "integers, non-integral floats, strings other than C<n>/c<n> without leading zeros, and n outside 1..64 are out of domain",
+    "'a number' = Python int, integral Python float, numpy integer or integral numpy float (six spellings are generated: 'Cn', "
+    "'cn', int, float, np.int64, np.float64); bool, non-integral floats, strings other than C<n>/c<n> without leading zeros, "
+    "and n outside 1..64 are out of domain",
     "input lists have pairwise different subtomo_id (otherwise 'its parent' is ambiguous), finite fields, |position| <= 1e7",
     "orientations are compared entry-wise with 1e-6 (not 1e-9): the result is only observable as zxz Euler angles and the "
     "Euler extraction treats |theta| < 1e-7 rad as gimbal lock (measured loss 3.5e-9 on near-gimbal inputs); positions with "
@@ -56,7 +57,7 @@ ASSUMPTIONS = [
 CLASSES = ["divisor", "nondivisor", "n1", "n_33_64", "on_axis", "zero_offset", "inplane_offset", "int_offset",
            "single_particle", "many_particles", "gimbal", "near_gimbal", "wide_angles", "half_ties", "large_signed_pos",
            "odd_ids_index"]
-SPELLINGS = ["Cn", "cn", "int", "float"]
+SPELLINGS = ["Cn", "cn", "int", "float", "np.int64", "np.float64"]
 CLAUSES = ["rows_per_parent", "subunit_index", "orientation", "position", "unique_ids", "inherited", "integral"]
 NONDIV = [n for n in range(1, 65) if 360 % n]
 DIV = [n for n in range(1, 65) if 360 % n == 0]
@@ -77,7 +78,8 @@ def plan(tier):
 
 
 def spell(n, sp):
-    return {"Cn": "C%d" % n, "cn": "c%d" % n, "int": int(n), "float": float(n)}[sp]
+    return {"Cn": "C%d" % n, "cn": "c%d" % n, "int": int(n), "float": float(n), "np.int64": np.int64(n),
+            "np.float64": np.float64(n)}[sp]
 
 
 # ---- call monitors ------------------------------------------------------------------------------
@@ -274,8 +276,8 @@ def gen(ctx, i, cls):
         df["subtomo_id"] = rng.choice(np.arange(1, max(10 ** int(rng.integers(2, 7)), 3 * N)), size=N, replace=False).astype(float)
         index = (rng.integers(0, max(2, N // 2 + 1), N) * 3 + 5) if rng.random() < 0.5 else rng.permutation(N) + 11
     s, kind = _offset(rng, cls)
-    sp = SPELLINGS[(i // len(CLASSES)) % 4]
-    alt = SPELLINGS[((i // len(CLASSES)) + 1 + int(rng.integers(0, 3))) % 4]
+    sp = SPELLINGS[(i // len(CLASSES)) % len(SPELLINGS)]
+    alt = SPELLINGS[((i // len(CLASSES)) + 1 + int(rng.integers(0, len(SPELLINGS) - 1))) % len(SPELLINGS)]
     on_axis = bool(s[0] == 0 and s[1] == 0)
     case = {"i": i, "cls": cls, "df": df, "index": index, "n": n, "spelling": sp, "alt_spelling": alt, "s": s, "s_kind": kind,
             "on_axis": on_axis}
@@ -340,7 +342,7 @@ def run_case(ctx, case):
     ctx.check("spelling_agree", ok, None if w is None else dict(w, a=repr(sym), b=repr(sym2)))
 
 
-# ---- exhaustive sub-space: every n x four spellings x {generic, on-axis, zero} offset ------------------------------
+# ---- exhaustive sub-space: every n x six spellings x {generic, on-axis, zero} offset ------------------------------
 def extra(ctx):
     nmax = 64 if ctx.tier == "thorough" else 32
     covered, calls, nondiv = 0, 0, 0
@@ -366,20 +368,20 @@ def extra(ctx):
             ok, w = orc.same_tables(outs[0][1], o)
             ctx.check("spelling_agree", ok, None if w is None else dict(w, a=outs[0][0], b=sp, n=n))
         for s2 in (np.array([0.0, 0.0, float(s[2])]), np.zeros(3)):
-            sp = SPELLINGS[(n + int(s2[2] != 0)) % 4]
+            sp = SPELLINGS[(n + int(s2[2] != 0)) % len(SPELLINGS)]
             out, _ = _split(ctx, df, None, spell(n, sp), s2, "split(%s)" % sp)
             calls += 1
             if out is not None:
                 done += 1
                 _relational(ctx, df, n, s2, out, True, repr(spell(n, sp)))
-        if done == 6 and ctx.mon["orientation"]["evals"] - before == 6:
+        if done == len(SPELLINGS) + 2 and ctx.mon["orientation"]["evals"] - before == len(SPELLINGS) + 2:
             covered += 1
             nondiv += 1 if 360 % n else 0
     ctx.extra["n_range"] = "1..%d" % nmax
     ctx.extra["n_values_covered"] = covered
     ctx.extra["n_values_not_dividing_360_covered"] = nondiv
     ctx.extra["spellings_per_n"] = len(SPELLINGS)
-    ctx.extra["offsets_per_n"] = "generic (4 spellings), on-axis, zero"
+    ctx.extra["offsets_per_n"] = "generic (all %d spellings), on-axis, zero" % len(SPELLINGS)
     ctx.extra["sweep_calls"] = calls
     # out-of-quantifier probes: must be counted out_of_domain, never judged
     rng = ctx.rng(10 ** 6, 8)
